@@ -139,7 +139,19 @@ def run_groups(pid, groups, tier, seed):
                 samples.append({"obligation": "%s :: %s" % (u, name), "status": "proved", "backend": o["backend"],
                                 "goal": o["detail"][:200]})
             if o["status"] == "unknown":
-                undecided.append({"unit": u, "obligation": name, "path": o["path"]})
+                undecided.append({"unit": u, "obligation": name, "path": o["path"], "why": o["detail"][-120:]})
+                # undecided by the solvers, but a candidate counterexample that REPLAYS on the real code is a
+                # demonstrated failure of a baseline-proved obligation
+                if b.get(name) == "proved" and o.get("model") and o["model"].get("__candidate__"):
+                    rp = try_replay(reg, u, name, o)
+                    if rp:
+                        violations.append({
+                            "what": "obligation %s of %s (proved on the baseline tree) is no longer provable and the "
+                                    "solver's candidate counterexample fails on the real code: %s" % (name, u, rp),
+                            "case": {"unit": u, "obligation": name, "path": o["path"], "model": o["model"],
+                                     "solver": "z3 (candidate model, validated by replay)", "detail": o["detail"],
+                                     "replayed": rp},
+                            "source": "deductive", "has_failing_input": True})
             elif o["status"] == "refuted":
                 entry = {"unit": u, "obligation": name, "path": o["path"], "model": o["model"], "detail": o["detail"][:300],
                          "in_baseline": b.get(name) == "proved"}
